@@ -96,12 +96,46 @@ fn realise_offsets(d: i64) -> Option<(i32, i32, i32, i32)> {
     None
 }
 
+/// largest / smallest value of `time - ut_offset` that passes the windows
+const U_MAX: i64 = 604_799 + 89_999;
+const U_MIN: i64 = -604_799 - 93_599;
+
+/// realise d with the absolute UTC-scale day times `us = start_time - std_offset`, `ue = end_time - dst_offset = us - d`
+/// translated to a chosen place: the statement makes acceptance a function of d alone, so it must not move with the
+/// translation (a shortcut that looks at one absolute value, e.g. "farther than a week from the year boundary", does)
+fn realise_at(us: i64, d: i64) -> Option<(i32, i32, i32, i32)> {
+    let ue = us - d;
+    if !(U_MIN..=U_MAX).contains(&us) || !(U_MIN..=U_MAX).contains(&ue) {
+        return None;
+    }
+    let st = us.clamp(-604_799, 604_799);
+    let et = ue.clamp(-604_799, 604_799);
+    Some(((st - us) as i32, (et - ue) as i32, st as i32, et as i32))
+}
+
+/// the translations tried for one d: start value at either extreme, end value at either extreme, and either value on
+/// both sides of a whole week
+fn translations(d: i64, all: bool) -> Vec<i64> {
+    let mut v = vec![U_MAX, U_MIN, U_MIN + d, U_MAX + d];
+    if all {
+        for w in [604_800i64, -604_800] {
+            for e in [-1i64, 0, 1] {
+                v.push(w + e);
+                v.push(w + e + d);
+            }
+        }
+    }
+    v.sort();
+    v.dedup();
+    v
+}
+
 pub fn run(ctx: &Ctx) -> Report {
     let mut rep = Report::new("C11");
-    rep.rule = "cases = AlternateTime::new decisions. Enumerated: all 1151 x 1151 = 1 324 801 ordered (start day, end day) pairs x breakpoints of the scalar d = (start_time - std_offset) - (end_time - dst_offset): quick k*86400+e for k in {-9,-1,0,1,9}, e in {-1,0,1}; thorough every k with |d| <= 16d3h (105 values), each d realised twice (through the times alone and through a non-zero offset pair) to observe that acceptance depends on d only. \
+    rep.rule = "cases = AlternateTime::new decisions. Enumerated: all 1151 x 1151 = 1 324 801 ordered (start day, end day) pairs x breakpoints of the scalar d = (start_time - std_offset) - (end_time - dst_offset): quick k*86400+e for k in {-9,-1,0,1,9}, e in {-1,0,1}; thorough every k with |d| <= 16d3h (105 values), each d realised twice (through the times alone and through a non-zero offset pair) and at the extreme translations of the two UTC-scale day times (start or end value at the largest / smallest value the windows admit; thorough: also on both sides of a whole week) to observe that acceptance depends on d only. \
                 Oracle: brute-force definition - min/max over a full 400-year cycle of the day differences behind S(y)-E(y), S(y+1)-E(y), S(y)-E(y+1); error variant = first violated condition. Window edges (+-25h/26h, +-7d) in all four arguments on a sample of pairs. distinct_nontrivial = decisions (all distinct by construction)."
         .into();
-    rep.required_classes = vec!["accepted", "refused_inconsistent", "refused_window", "pair_J_J", "pair_J_n", "pair_J_M", "pair_n_J", "pair_n_n", "pair_n_M", "pair_M_J", "pair_M_n", "pair_M_M", "week_5", "february", "same_month_M_M", "adjacent_month_M_M"];
+    rep.required_classes = vec!["accepted", "refused_inconsistent", "refused_window", "pair_J_J", "pair_J_n", "pair_J_M", "pair_n_J", "pair_n_n", "pair_n_M", "pair_M_J", "pair_M_n", "pair_M_M", "week_5", "february", "same_month_M_M", "adjacent_month_M_M", "utc_day_time_beyond_a_week"];
     if let Err(e) = crate::mon::c03::self_tests() {
         rep.inconclusive.push(format!("model self-test failed: {}", e));
         return rep;
@@ -167,6 +201,13 @@ pub fn run(ctx: &Ctx) -> Report {
                         cnt += 1;
                     }
                 }
+                for us in translations(d, !ctx.quick()) {
+                    if let Some((so, d_o, st, et)) = realise_at(us, d) {
+                        decide(l, &pre, si, ei, &diffs, so, d_o, st, et);
+                        l.class("utc_day_time_beyond_a_week");
+                        cnt += 1;
+                    }
+                }
             }
             ei += step;
         }
@@ -190,7 +231,15 @@ pub fn run(ctx: &Ctx) -> Report {
             let diffs = pre.tables.diffs(si, ei);
             let pick_off = |rng: &mut crate::util::rng::Rng| if rng.chance(1, 2) { *rng.pick(&OFFS) } else { rng.range(-100_000, 100_000) as i32 };
             let pick_time = |rng: &mut crate::util::rng::Rng| if rng.chance(1, 2) { *rng.pick(&TIMES) } else { rng.range(-700_000, 700_000) as i32 };
-            let (so, d_o, st, et) = (pick_off(rng), pick_off(rng), pick_time(rng), pick_time(rng));
+            let (mut so, mut d_o, mut st, mut et) = (pick_off(rng), pick_off(rng), pick_time(rng), pick_time(rng));
+            if rng.chance(1, 3) {
+                // a breakpoint of d (or a random d) at a random translation
+                let d = if rng.chance(1, 2) { rng.range(-16, 17) * 86400 + rng.range(-1, 2) } else { rng.range(-1_400_000, 1_400_000) };
+                let us = if rng.chance(1, 2) { rng.range(U_MIN, U_MAX + 1) } else { *rng.pick(&[U_MAX, U_MIN, 604_800, -604_800, 604_799, -604_799, 604_801, -604_801]) + rng.range(-1, 2) };
+                if let Some(r) = realise_at(us, d) {
+                    (so, d_o, st, et) = r;
+                }
+            }
             decide(l, &pre, si, ei, &diffs, so, d_o, st, et);
             l.distinct_hash(Fnv::new().i(si as i64 * 2000 + ei as i64).i(so as i64).i(d_o as i64).i(st as i64).i(et as i64).get());
         }
